@@ -2025,6 +2025,7 @@ archive_write_disk_new(void)
 	/* We're ready to write a header immediately. */
 	a->archive.state = ARCHIVE_STATE_HEADER;
 	a->archive.vtable = &archive_write_disk_vtable;
+	a->fd = -1; /* No entry is open yet. */
 	a->start_time = time(NULL);
 	/* Query and restore the umask. */
 	umask(a->user_umask = umask(0));
@@ -2540,9 +2541,21 @@ _archive_write_disk_close(struct archive *_a)
 	int fd, ret, openflags;
 
 	archive_check_magic(&a->archive, ARCHIVE_WRITE_DISK_MAGIC,
-	    ARCHIVE_STATE_HEADER | ARCHIVE_STATE_DATA,
+	    ARCHIVE_STATE_HEADER | ARCHIVE_STATE_DATA | ARCHIVE_STATE_FATAL,
 	    "archive_write_disk_close");
-	ret = _archive_write_disk_finish_entry(&a->archive);
+	if (a->archive.state == ARCHIVE_STATE_FATAL) {
+		/*
+		 * The current entry cannot be finished any more and the
+		 * caller is still told so, but what the entry holds is
+		 * released here, and the deferred fix-ups below are
+		 * still applied and freed.
+		 */
+		close_file_descriptor(a);
+		archive_entry_free(a->entry);
+		a->entry = NULL;
+		ret = ARCHIVE_FATAL;
+	} else
+		ret = _archive_write_disk_finish_entry(&a->archive);
 
 	/* Sort dir list so directories are fixed up in depth-first order. */
 	p = sort_dir_list(a->fixup_list);
@@ -2678,8 +2691,12 @@ _archive_write_disk_free(struct archive *_a)
 	    ARCHIVE_STATE_ANY | ARCHIVE_STATE_FATAL, "archive_write_disk_free");
 	a = (struct archive_write_disk *)_a;
 	ret = _archive_write_disk_close(&a->archive);
-	archive_write_disk_set_group_lookup(&a->archive, NULL, NULL, NULL);
-	archive_write_disk_set_user_lookup(&a->archive, NULL, NULL, NULL);
+	/* Not through archive_write_disk_set_*_lookup(): they refuse a
+	 * handle in the FATAL state and would skip the cleanup. */
+	if (a->cleanup_gid != NULL && a->lookup_gid_data != NULL)
+		(a->cleanup_gid)(a->lookup_gid_data);
+	if (a->cleanup_uid != NULL && a->lookup_uid_data != NULL)
+		(a->cleanup_uid)(a->lookup_uid_data);
 	archive_entry_free(a->entry);
 	archive_string_free(&a->_name_data);
 	archive_string_free(&a->_tmpname_data);
